@@ -94,15 +94,19 @@ CHECKS = {
         design='DESIGN.md section 8, C20'),
     'C05': dict(
         engine='objdiff',
-        technique='Coq proof (self-checking exact solve; sorted-merge knot vector; lifting lemma conditional on nestedness) + differential run: implementation vs exact collocation solve in the extracted model, and the statement evaluated on the implementation',
-        text=("PARTIAL proof level. Theorems in Properties/C05.v: the exact solve used by the model only ever returns solutions; the elevated knot vector is the sorted merge; IF the spline "
-              "spaces are nested (degree-elevation theorem, not proved) THEN the order-change matrix applied along any direction preserves every coordinate of the evaluation. The geometric half "
-              "is therefore carried by the correspondence: the implementation's control points after raise_order/set_order/lower_order are compared with the unique exact interpolant computed by "
-              "the extracted model (L1), and the statement is evaluated on the implementation with the proven evaluator (L2): map before = map after at knots/mid-spans/random parameters, order "
-              "grows by the amounts, domain, periodicity and every knot multiplicity (continuity) preserved, lower_order(raise_order) restores knot vectors and map. Known findings: objects with an "
-              "interior knot of full multiplicity, non-open knot vectors, lower_order on periodic objects."),
-        note=TB + " C05: nestedness of spline spaces under degree elevation is not proved; np.linalg.inv/spsolve are modelled by the exact solve; tolerance of the control-point comparison 1e-7.",
-        design='DESIGN.md section 8, C05'),
+        technique='Coq proof (Prautzsch degree-elevation identity by induction over Cox-de Boor; iterated Boehm insertion; nestedness matrix for any raise amount; the two-sided-inverse order-change matrix of the model IS that matrix; lifting lemma for any pardim/direction; lower-after-raise left inverse) + differential run: implementation vs the exact collocation model extracted from the same definitions, and the statement evaluated on the implementation',
+        text=("Proof level for non-periodic open (clamped) directions, any raise amount, any pardim and direction, rational or not; PARTIAL for periodic directions. Theorems in Properties/C05.v: "
+              "(4) degree elevation identity (q+1) B_{k,q,i} = sum_j B_{k with knot j doubled,q+1,i} for every sorted knot sequence, both one-sided variants; (5) BSplineBasis.raise_order(a) of the "
+              "model returns order p+a, non-periodic, with the sorted union of the old knots and a copies of each distinct knot (multiplicities, hence continuity, unchanged); (6) whenever the model's "
+              "order-change matrix exists (two-sided inverse of the new collocation matrix at the new Greville points times the old collocation matrix - np.linalg.inv in the code), applying it in "
+              "direction d of any tensor-product net leaves every coordinate of the evaluation unchanged at every parameter and both sides; (7) the reverse change of basis is a left inverse "
+              "(lower_order after raise_order restores the control points); (8) the generic uniqueness theorem behind 6; (1)-(3) self-checking solve, sorted merge, and the conditional lifting "
+              "statement that still carries the periodic case. Correspondence: the implementation's control points after raise_order/set_order/lower_order are compared with the extracted model (L1), "
+              "and the statement is evaluated on the implementation with the proven evaluator (L2): map before = map after at knots/mid-spans/random parameters, order grows by the amounts, domain, "
+              "periodicity and every knot multiplicity preserved, lower_order(raise_order) restores knot vectors and map. Known findings: objects with an interior knot of full multiplicity, "
+              "non-open knot vectors, lower_order on periodic objects."),
+        note=TB + " C05: hypotheses of theorems 5-7: sorted clamped knot vector, distinct knots farther apart than the knot tolerance, start<end, the model's inverse exists (it is self-checking: both products and the shape are verified by the model itself); the periodic analogue of theorem 6 and the knot vector of lower_order are not proved (L1/L2 only); np.linalg.inv/spsolve are modelled by the exact self-checked inverse; tolerance of the control-point comparison 1e-7.",
+        design='DESIGN.md section 8, C05 and section 14'),
     'C07': dict(
         engine='objdiff',
         technique='Coq proof (restriction of B-splines to a knot sub-range; slice matrix through the lifting lemma, any pardim) + differential run of the extracted transcription of split (incl. periodic roll) vs the implementation',
